@@ -1,6 +1,7 @@
 package main
 
 import (
+	"encoding/json"
 	"flag"
 	"fmt"
 	"os"
@@ -29,6 +30,44 @@ func main() {
 	evOut := fs.String("evidence", "", "evidence file (default /verif/evidence/<property>.json)")
 	fs.Parse(os.Args[2:])
 	switch cmd {
+	case "replay":
+		// govc replay <file>: print the record and, when it carries a test, run it again on /repo's working tree
+		if fs.NArg() < 1 {
+			fmt.Fprintln(os.Stderr, "usage: govc replay <replay file>")
+			os.Exit(2)
+		}
+		b, err := os.ReadFile(fs.Arg(0))
+		if err != nil {
+			fmt.Fprintln(os.Stderr, err)
+			os.Exit(2)
+		}
+		var rec map[string]interface{}
+		if err := json.Unmarshal(b, &rec); err != nil {
+			fmt.Fprintln(os.Stderr, err)
+			os.Exit(2)
+		}
+		src, _ := rec["replay_test_go"].(string)
+		delete(rec, "replay_test_go")
+		out, _ := json.MarshalIndent(rec, "", " ")
+		fmt.Println(string(out))
+		if src == "" {
+			fmt.Println("(no executable replay in this record: the violation was reported without a failing input)")
+			os.Exit(0)
+		}
+		L, err := Load(*repo, *verif)
+		if err != nil {
+			fmt.Fprintln(os.Stderr, err)
+			os.Exit(2)
+		}
+		pass, o := runOverlayTest(L, *verif, src, false)
+		fmt.Println("--- replay on the current working tree ---")
+		fmt.Println(trimOutput(o))
+		if pass {
+			fmt.Println("replay: the recorded input no longer violates the clause on this tree")
+			os.Exit(0)
+		}
+		fmt.Println("replay: the recorded input still violates the clause")
+		os.Exit(1)
 	case "gen":
 		L, err := Load(*repo, *verif)
 		if err != nil {
